@@ -1630,7 +1630,8 @@ func ValuesLookTheSame(left E, right E) bool {
 		}
 
 	case *EUnary:
-		if b, ok := right.(*EUnary); ok && a.Op == b.Op && ValuesLookTheSame(a.Value.Data, b.Value.Data) {
+		if b, ok := right.(*EUnary); ok && a.Op == b.Op && a.WasOriginallyTypeofIdentifier == b.WasOriginallyTypeofIdentifier &&
+			ValuesLookTheSame(a.Value.Data, b.Value.Data) {
 			return true
 		}
 
